@@ -351,3 +351,7 @@ Definition get_chunk (d : dstate) (id : Z) : Res (list Z) :=
        end.
 
 Definition num_frames (d : dstate) : Z := len (d_frames d).
+
+(** The pinned code before commit 078db33 (no RIFF-size check).  Only used in
+    [_refuted] theorems; the correspondence runs [parse true], the current code. *)
+Definition pinned_parse (data : list Z) : Res dstate := parse false data.
